@@ -69,6 +69,16 @@ def scenarios(d):
         store={}, remote={REMOTE: {"type": "string"}},
         instances=[{"first": 1}, {"second": "some text"}, {"first": "x", "third": 5}],
         refs=[REMOTE]))
+    # the same definition reached twice for the same instance: first by a keyword that only asks for a verdict (and
+    # abandons the error iterator at the first error), then by one that reports every error
+    big = {"minimum": 10, ("divisibleBy" if d == 3 else "multipleOf"): 4}
+    s_twice = dict(neg({"$ref": "#/definitions/big"}))
+    s_twice[allof] = [{"$ref": "#/definitions/big"}]
+    s_twice["definitions"] = {"big": big}
+    if d >= 6:
+        s_twice = dict([("contains", {"$ref": "#/definitions/big"})] + list(s_twice.items()))
+    out.append(dict(name="same-ref-verdict-then-report", schema=s_twice, store={}, remote={},
+                    instances=[15, 3, 12, [15, 3], [12]], refs=["#/definitions/big"]))
     # a root document without an id, other documents stored under RELATIVE URIs with a directory, a relative reference
     # from one of them to its neighbour, and references into the root itself before and after
     out.append(dict(
